@@ -47,6 +47,8 @@ def render_task(ns: str, name: str, tdef: dict, ver: int, extra_opts: Optional[d
     lines.append(f"    # version {ver}")
     if v["kind"] in ("leaf", "noexec"):
         lines.append(f"    return x + {v['add']}")
+    elif v["kind"] == "const":
+        lines.append(f"    return {v['add']}")
     elif v["kind"] == "fail":
         lines.append(f'    raise ValueError("boom:{name}:%s" % (x,))')
     else:
@@ -60,7 +62,10 @@ def render_task(ns: str, name: str, tdef: dict, ver: int, extra_opts: Optional[d
                 arg = f"c{c['i']}"
             else:
                 arg = f"x + {c['v']}"
-            lines.append(f"    c{i} = {c['t']}({'hh, ' if hmap.get(c['t']) else ''}{arg})")
+            call = f"{c['t']}({'hh, ' if hmap.get(c['t']) else ''}{arg})"
+            if c.get("g"):
+                call = f"catch({call}, Exception, rec)"
+            lines.append(f"    c{i} = {call}")
         if kids:
             lines.append("    return " + " + ".join(f"c{i}" for i in range(1, len(kids) + 1)))
         else:
@@ -75,7 +80,7 @@ def task_order(prog: dict) -> list[str]:
 
 
 def render_module(prog: dict, vers: dict[str, int]) -> str:
-    src = ["from redun import task, Handle", "", "",
+    src = ["from redun import task, Handle", "from redun.scheduler import catch", "", "",
            "class VH(Handle):", "    def __init__(self, name):", "        self.n = name", "", ""]
     hmap = {t: bool(d.get("h")) for t, d in prog["tasks"].items()}
     for name in task_order(prog):
@@ -120,10 +125,19 @@ class ProgramModule:
 
 def normalize(prog: dict) -> dict:
     """Fill optional fields so that TLC sees uniform records."""
+    guarded = False
     for t in prog["tasks"].values():
         t.setdefault("h", 0)
         t.setdefault("scope", "BACKEND")
         t.setdefault("units", {})
+        for v in t["vers"]:
+            for c in v["children"]:
+                c.setdefault("g", 0)
+                guarded = guarded or bool(c["g"])
+    # the recover task of guarded (catch) children is always declared, so that TLC sees one shape
+    prog["tasks"].setdefault("rec", {"units": {}, "h": 0, "scope": "BACKEND",
+                                     "vers": [{"kind": "const", "add": -7, "children": []}]})
+    prog["tnames"] = sorted(prog["tasks"])
     return prog
 
 
@@ -183,6 +197,7 @@ def random_program(rng, ns: str, max_kids: int = 4, p_fail: float = 0.25, plan: 
                 out.append({"t": t, "k": "c", "v": rng.choice(small), "i": 0})
         return out
 
+    guard_bad = rng.random() < 0.5   # calls of the failing task are wrapped in catch(...)
     has_bad = rng.random() < p_fail
     has_h = rng.random() < 0.4
     leafs = ["leaf", "leaf", "leaf2"] + (["bad"] if has_bad else []) + (["use", "use"] if has_h else [])
@@ -207,8 +222,18 @@ def random_program(rng, ns: str, max_kids: int = 4, p_fail: float = 0.25, plan: 
         for r, n in list(t["units"].items()):
             if n > limits.get(r, 1):
                 t["units"][r] = limits.get(r, 1)
+    if guard_bad:
+        for t in tasks.values():
+            for v in t["vers"]:
+                for c in v["children"]:
+                    if c["t"] == "bad" and c["k"] != "s":
+                        c["g"] = 1
     if plan is None:
         plan = rng.choice(PLANS)
+    if guard_bad:
+        # an edit of a guarded task after its recovery was cached is the C02 catch finding; keep it
+        # out of the scheduler-group programs
+        plan = [st for st in plan if not (st["k"] == "edit" and st["t"] == "bad")]
     plan = [st for st in plan if st["k"] != "edit" or len(tasks[st["t"]]["vers"]) > 1]
     return normalize({"ns": ns, "res": res, "limits": limits,
                       "root": {"t": "main", "arg": rng.choice([0, 1])}, "tasks": tasks, "plan": plan})
